@@ -335,6 +335,7 @@ package smtp
 //@   ensures @C11 the-mailbox-is-the-one-the-mailbox-parser-accepted: err == nil ==> called("(*parser).parseMailbox") && s == resultof("(*parser).parseMailbox", 1, 1) && resultof("(*parser).parseMailbox", 1, 2) == nil
 //@   ensures @C11 a-path-without-source-route-is-refused-only-for-its-mailbox-or-a-missing-closing-bracket: err != nil && !(len(old(p.s)) >= 1 && (old(p.s)[0] == 64 || (len(old(p.s)) >= 2 && old(p.s)[0] == 60 && old(p.s)[1] == 64))) ==> resultof("(*parser).parseMailbox", 1, 2) != nil || (len(old(p.s)) >= 1 && old(p.s)[0] == 60 && (len(p.s) == 0 || p.s[0] != 62))
 //@   before (*parser).parseMailbox: @C11 what-is-left-for-the-mailbox-parser-is-the-rest-of-the-input: len(p.s) <= len(old(p.s)) && (forall i :: 0 <= i && i < len(p.s) ==> p.s[i] == old(p.s)[len(old(p.s)) - len(p.s) + i])
+//@   before (*parser).parseMailbox: @C11 a-source-route-is-skipped-up-to-a-colon: len(old(p.s)) >= 2 && old(p.s)[0] == 60 && old(p.s)[1] == 64 ==> len(p.s) + 3 <= len(old(p.s)) && old(p.s)[len(old(p.s)) - len(p.s) - 1] == 58
 //@   before (*parser).parseMailbox: @C11 the-mailbox-parser-starts-right-after-the-opening-bracket: (len(old(p.s)) >= 1 && old(p.s)[0] == 60 && (len(old(p.s)) < 2 || old(p.s)[1] != 64) ==> len(p.s) == len(old(p.s)) - 1) && ((len(old(p.s)) == 0 || (old(p.s)[0] != 60 && old(p.s)[0] != 64)) ==> len(p.s) == len(old(p.s)))
 //@   ensures @C11 a-well-formed-bracketed-path-whose-mailbox-was-accepted-is-not-refused: len(old(p.s)) >= 1 && old(p.s)[0] == 60 && resultof("(*parser).parseMailbox", 1, 2) == nil && (exists a: int :: exists e: int :: 2 <= a && a + 2 <= e && e < len(old(p.s)) && (forall i :: 1 <= i && i < a ==> isLtext(old(p.s)[i])) && old(p.s)[a] == 64 && (forall i :: a < i && i < e ==> isDtext(old(p.s)[i])) && old(p.s)[e] == 62) ==> err == nil
 //@ contract (*parser).parseMailbox(p) (s, err)
